@@ -58,6 +58,9 @@ class ChartGen:
         pool = [a + b for a in 'zyxcba' for b in 'qpo321']
         while True:
             nm = self.r.choice(pool) + ('' if self.n < 30 else str(self.n))
+            if getattr(self.k, 'subnames', 0) and self.names and self.r.random() < self.k.subnames:
+                # a name that contains another state's name
+                nm = self.r.choice(self.names) + self.r.choice('xyz')
             self.n += 1
             if nm not in self.names:
                 self.names.append(nm)
@@ -127,6 +130,9 @@ class ChartGen:
         if allow_time and getattr(k, 'time_conds', 0) and r.random() < k.time_conds:
             # a bare time predicate (C13): about the state itself / the source of the transition
             return r.choice(['after(%d)', 'idle(%d)']) % r.randint(0, 3)
+        if getattr(k, 'sent_conds', 0) and r.random() < k.sent_conds:
+            # false exactly when an earlier micro step of the macro step under way sent that event
+            return "not sent('%s')" % r.choice(k.send_names)
         c = r.random()
         if k.cflags and c < 0.35:
             return 'c%d' % r.randrange(k.cflags)
